@@ -54,7 +54,15 @@ void time_advance_monitor(double)
     auto st = t.act->get_state();
     if (st == sg4::Activity::State::INITED || st == sg4::Activity::State::STARTING)
       continue;
-    double rem = t.act->get_impl() ? t.act->get_remaining() : 0;
+    double rem = 0;
+    if (t.act->get_impl()) {
+      // an action that completed in this very time advance is not cleaned yet, and get_remaining() asserts on it
+      auto* ma = t.act->get_impl()->model_action_;
+      if (ma != nullptr && ma->get_state() != simgrid::kernel::resource::Action::State::STARTED)
+        rem = ma->get_remains_no_update();
+      else
+        rem = t.act->get_remaining();
+    }
     emit("A %s %s rem=%a", t.name.c_str(), t.act->get_state_str(), rem);
     if (st == sg4::Activity::State::FINISHED || st == sg4::Activity::State::FAILED || st == sg4::Activity::State::CANCELED)
       t.done = true;
@@ -62,7 +70,8 @@ void time_advance_monitor(double)
   std::string l;
   char b[128];
   for (auto& [n, h] : hosts) {
-    snprintf(b, sizeof b, " %s=%a/%a/%d", n.c_str(), h->get_load(), h->get_available_speed(), (int)h->is_on());
+    snprintf(b, sizeof b, " %s=%a/%a/%d", n.c_str(), h->get_load(),
+             h->get_speed() * h->get_available_speed() * h->get_core_count(), (int)h->is_on());
     l += b;
   }
   for (auto& [n, k] : links) {
